@@ -57,6 +57,10 @@ static RunResult run_case(const std::vector<uint8_t> &bytes, int budget_s) {
     try { g_prop->fn(s, r.ctx); }
     catch (Violation &v) { r.o = FAIL; r.oracle = v.oracle; r.msg = v.msg; }
     catch (Discard &) { r.o = DISCARD; }
+    catch (std::runtime_error &e) {   // the documented rejection of a level beyond a finite rule table (gauss-patterson, custom-tabulated) ends a case wherever it surfaces
+        std::string m = e.what();
+        if (m.find("rule needed with level") != std::string::npos && m.find(", but only ") != std::string::npos) r.o = DISCARD;
+        else { r.o = FAIL; r.oracle = std::string(g_prop->id) + ".unexpected-exception"; r.msg = m; } }
     catch (std::exception &e) { r.o = FAIL; r.oracle = std::string(g_prop->id) + ".unexpected-exception"; r.msg = e.what(); }
     catch (...) { r.o = FAIL; r.oracle = std::string(g_prop->id) + ".unexpected-exception"; r.msg = "non-std exception"; }
     alarm(0);
